@@ -152,6 +152,8 @@ def routes_for(obj):
     if isinstance(obj, (pd.Series, pd.DataFrame)):
         rs += ["pd_values", "pd_to_numpy", "pd_iloc", "pd_iadd", "pd_index_name", "pd_index_values", "pd_sort_inplace",
                "pd_array"]
+    if isinstance(obj, pd.Index):
+        rs += ["idx_asarray"]
     if isinstance(obj, dict):
         rs += ["dict_set"]
     if isinstance(obj, list):
@@ -195,6 +197,10 @@ def mutate(obj, route):
         elif route == "arr_asarray":
             base = np.asarray(obj)
             base[0 if base.ndim == 1 else (0, 0)] = poison(base)
+        elif route == "idx_asarray":
+            v = np.asarray(obj)         # no setflags: a read-only view is a refused write
+            v[0] = v[-1] if len(v) > 1 and v[-1] != v[0] else poison(v)
+            v.sort()
         elif route == "pd_values":
             v = obj.values
             v[0 if v.ndim == 1 else (0, 0)] = poison(v)
